@@ -139,7 +139,9 @@ class C14(runner.Check):
     if rng.random() < (0.03 if tier == 'quick' else 0.06):
       name = 'cmaes'
     kinds = sorted(rng.sample(PERTURB, rng.choice([2, 3, 4, 6])))
-    plan = {'designer': name, 'seed': rng.randrange(1, 10**6), 'perturb': kinds,
+    # edge seeds on purpose: 0 is falsy, 2**31-1 / 2**32-1 are range limits
+    seed = rng.randrange(1, 10**6) if rng.random() < 0.8 else rng.choice([0, 0, 0, 1, 2**31 - 1])
+    plan = {'designer': name, 'seed': seed, 'perturb': kinds,
             'epoch': simclock.EPOCH + rng.randrange(10**6),
             'fresh_process': rng.random() < 0.08}
     if rng.random() < 0.3 and name != 'sgrid':
